@@ -36,10 +36,11 @@ VARIABLES
   quietLen, \* quietLen[n]: length of evlog[n] at the last quiescence observation
   callListed, \* callListed[nonce]: was the callee listed when the RPC was issued
   pathOut,  \* pathOut[<<a, b>>]: when a last sent a datagram towards b (delivered or not)
-  pathIn    \* pathIn[<<a, b>>]: when a datagram from a was last let through to b
+  pathIn,   \* pathIn[<<a, b>>]: when a datagram from a was last let through to b
+  closingH  \* closingH[n]: connection whose handler on n saw it end and has not removed it yet (0: none)
 
 tvars == <<l, now, pendEv, conns, tasks, spawnQ, nextTick, phase, subs, subPos, addrNode,
-           lastAdd, replies, closeT, faultT, idle, ka, runStart, lastSend, quietLen, callListed, pathOut, pathIn>>
+           lastAdd, replies, closeT, faultT, idle, ka, runStart, lastSend, quietLen, callListed, pathOut, pathIn, closingH>>
 allvars == <<vars, tvars>>
 
 TraceNoLimit == -1
@@ -74,7 +75,7 @@ TraceInit ==
   /\ pendEv = Empty /\ conns = Empty /\ tasks = Empty /\ spawnQ = Empty
   /\ nextTick = Empty /\ phase = Empty /\ subs = Empty /\ subPos = Empty
   /\ addrNode = Empty /\ lastAdd = Empty /\ replies = Empty /\ closeT = Empty
-  /\ faultT = -1 /\ idle = Empty /\ ka = Empty /\ runStart = 0 /\ lastSend = Empty /\ quietLen = Empty /\ callListed = Empty /\ pathOut = Empty /\ pathIn = Empty
+  /\ faultT = -1 /\ idle = Empty /\ ka = Empty /\ runStart = 0 /\ lastSend = Empty /\ quietLen = Empty /\ callListed = Empty /\ pathOut = Empty /\ pathIn = Empty /\ closingH = Empty
 
 -----------------------------------------------------------------------------
 Cur == Rec[l]
@@ -100,7 +101,7 @@ TrReset ==
   /\ pendEv' = Empty /\ conns' = Empty /\ tasks' = Empty /\ spawnQ' = Empty
   /\ nextTick' = Empty /\ phase' = Empty /\ subs' = Empty /\ subPos' = Empty
   /\ addrNode' = Empty /\ lastAdd' = Empty /\ replies' = Empty /\ closeT' = Empty
-  /\ faultT' = -1 /\ idle' = Empty /\ ka' = Empty /\ runStart' = l /\ lastSend' = Empty /\ quietLen' = Empty /\ callListed' = Empty /\ pathOut' = Empty /\ pathIn' = Empty
+  /\ faultT' = -1 /\ idle' = Empty /\ ka' = Empty /\ runStart' = l /\ lastSend' = Empty /\ quietLen' = Empty /\ callListed' = Empty /\ pathOut' = Empty /\ pathIn' = Empty /\ closingH' = Empty
 
 TrNodeStart ==
   /\ IsEvent("obs.node_start")
@@ -110,7 +111,7 @@ TrNodeStart ==
   /\ addrNode' = With(addrNode, Cur.addr, N)
   /\ idle' = With(idle, N, Get(Cur, "idle_ms", 10000))
   /\ ka' = With(ka, N, Get(Cur, "keepalive_ms", 0))
-  /\ UNCHANGED <<runStart, lastSend, quietLen, callListed, pathOut, pathIn>>
+  /\ UNCHANGED <<runStart, lastSend, quietLen, callListed, pathOut, pathIn, closingH>>
   /\ cfg' = With(cfg, N, [limit |-> NoLimit, interval |-> 0, step |-> 0, maxb |-> 0, cto |-> 0, cap |-> 0])
   /\ nextTick' = With(nextTick, N, 0)
   /\ UNCHANGED <<conns, tasks, subs, closeT, faultT>>
@@ -120,7 +121,8 @@ TrAddr ==
   /\ IsEvent("obs.addr")
   /\ addrNode' = With(addrNode, Cur.addr, Cur.who)
   /\ UNCHANGED <<vars, pendEv, conns, tasks, spawnQ, nextTick, phase, subs, subPos, lastAdd,
-                 replies, closeT, faultT, idle, ka, runStart, lastSend, quietLen, callListed, pathOut, pathIn>>
+                 replies, closeT, faultT, idle, ka, runStart, lastSend, quietLen, callListed,
+                 pathOut, pathIn, closingH>>
 
 TrMgrStart ==
   /\ IsEvent("mgr.start")
@@ -133,29 +135,32 @@ TrMgrStart ==
                                 cto      |-> Cur.connect_timeout_ms,
                                 cap      |-> Cur.cap]]
   /\ nextTick' = [nextTick EXCEPT ![N] = Cur.t]
-  /\ UNCHANGED <<connVars, known, pendingDial, bgResult, backoff, pendingConn,
-                 pendEv, conns, tasks, spawnQ, subs, subPos, addrNode, lastAdd, replies,
-                 closeT, faultT, idle, ka, runStart, lastSend, quietLen, callListed, pathOut, pathIn>>
+  /\ UNCHANGED <<connVars, known, pendingDial, bgResult, backoff, pendingConn, pendEv, conns,
+                 tasks, spawnQ, subs, subPos, addrNode, lastAdd, replies, closeT, faultT, idle,
+                 ka, runStart, lastSend, quietLen, callListed, pathOut, pathIn, closingH>>
 
 TrKnownInsert ==
   /\ IsEvent("obs.known_insert")
   /\ known' = [known EXCEPT ![N] = With(@, Cur.peer, [aff |-> Cur.affinity, addrs |-> Cur.addrs])]
-  /\ UNCHANGED <<connVars, cfg, pendingDial, bgResult, backoff, pendingConn, pendEv, conns, tasks,
-                 spawnQ, nextTick, phase, subs, subPos, addrNode, lastAdd, replies, closeT,
-                 faultT, idle, ka, runStart, lastSend, quietLen, callListed, pathOut, pathIn>>
+  /\ UNCHANGED <<connVars, cfg, pendingDial, bgResult, backoff, pendingConn, pendEv, conns,
+                 tasks, spawnQ, nextTick, phase, subs, subPos, addrNode, lastAdd, replies,
+                 closeT, faultT, idle, ka, runStart, lastSend, quietLen, callListed, pathOut,
+                 pathIn, closingH>>
 
 TrKnownRemove ==
   /\ IsEvent("obs.known_remove")
   /\ known' = [known EXCEPT ![N] = Without(@, Cur.peer)]
-  /\ UNCHANGED <<connVars, cfg, pendingDial, bgResult, backoff, pendingConn, pendEv, conns, tasks,
-                 spawnQ, nextTick, phase, subs, subPos, addrNode, lastAdd, replies, closeT,
-                 faultT, idle, ka, runStart, lastSend, quietLen, callListed, pathOut, pathIn>>
+  /\ UNCHANGED <<connVars, cfg, pendingDial, bgResult, backoff, pendingConn, pendEv, conns,
+                 tasks, spawnQ, nextTick, phase, subs, subPos, addrNode, lastAdd, replies,
+                 closeT, faultT, idle, ka, runStart, lastSend, quietLen, callListed, pathOut,
+                 pathIn, closingH>>
 
 TrFault ==
   /\ IsEvent("obs.fault")
   /\ faultT' = Cur.t
   /\ UNCHANGED <<vars, pendEv, conns, tasks, spawnQ, nextTick, phase, subs, subPos, addrNode,
-                 lastAdd, replies, closeT, idle, ka, runStart, lastSend, quietLen, callListed, pathOut, pathIn>>
+                 lastAdd, replies, closeT, idle, ka, runStart, lastSend, quietLen, callListed,
+                 pathOut, pathIn, closingH>>
 
 -----------------------------------------------------------------------------
 (* The connectivity check *)
@@ -192,7 +197,8 @@ TrTick ==
                      @ \o [i \in DOMAIN Cur.dials |->
                              [bg |-> TRUE, peer |-> Cur.dials[i].peer, addr |-> Cur.dials[i].addr]]]
   /\ UNCHANGED <<connVars, pendEv, conns, tasks, phase, subs, subPos, addrNode, lastAdd, replies,
-                 closeT, faultT, idle, ka, runStart, lastSend, quietLen, callListed, pathOut, pathIn>>
+                 closeT, faultT, idle, ka, runStart, lastSend, quietLen, callListed, pathOut,
+                 pathIn, closingH>>
 
 TrConnectReq ==
   /\ IsEvent("mgr.connect_req")
@@ -201,7 +207,8 @@ TrConnectReq ==
   /\ spawnQ' = [spawnQ EXCEPT ![N] =
                   Append(@, [bg |-> FALSE, peer |-> Get(Cur, "expected", -1), addr |-> Cur.addr])]
   /\ UNCHANGED <<connVars, known, cfg, pendingDial, bgResult, backoff, pendEv, conns, tasks,
-                 nextTick, phase, subs, subPos, addrNode, lastAdd, replies, closeT, faultT, idle, ka, runStart, lastSend, quietLen, callListed, pathOut, pathIn>>
+                 nextTick, phase, subs, subPos, addrNode, lastAdd, replies, closeT, faultT, idle,
+                 ka, runStart, lastSend, quietLen, callListed, pathOut, pathIn, closingH>>
 
 -----------------------------------------------------------------------------
 (* Outbound: dial_peer_task *)
@@ -217,7 +224,8 @@ TrDialStart ==
                        addr |-> Cur.addr, gid |-> 0, fin |-> "no"])
   /\ spawnQ' = [spawnQ EXCEPT ![N] = Tail(@)]
   /\ UNCHANGED <<vars, pendEv, conns, nextTick, phase, subs, subPos, addrNode, lastAdd, replies,
-                 closeT, faultT, idle, ka, runStart, lastSend, quietLen, callListed, pathOut, pathIn>>
+                 closeT, faultT, idle, ka, runStart, lastSend, quietLen, callListed, pathOut,
+                 pathIn, closingH>>
 
 (* TLS finished on the dialer: it accepted the certificate of the party at  *)
 (* the address.  PinSound / Authentic: the identity it attributes is the    *)
@@ -235,7 +243,8 @@ TrDialTls ==
                     ackSent |-> FALSE, ackRead |-> FALSE, ackConf |-> FALSE])
   /\ tasks' = [tasks EXCEPT ![Cur.task].gid = Cur.gid]
   /\ UNCHANGED <<vars, pendEv, spawnQ, nextTick, phase, subs, subPos, addrNode, lastAdd, replies,
-                 closeT, faultT, idle, ka, runStart, lastSend, quietLen, callListed, pathOut, pathIn>>
+                 closeT, faultT, idle, ka, runStart, lastSend, quietLen, callListed, pathOut,
+                 pathIn, closingH>>
 
 TrDialDone ==
   /\ IsEvent("dial.done")
@@ -253,8 +262,9 @@ TrDialDone ==
              THEN /\ closedL' = [closedL EXCEPT ![N] = @ \cup {tk.gid}]
                   /\ Closes(N, {tk.gid})
              ELSE UNCHANGED <<closedL, closeT>>
-  /\ UNCHANGED <<active, evlog, handlers, dialVars, pendEv, conns, spawnQ, nextTick, phase, subs,
-                 subPos, addrNode, lastAdd, replies, faultT, idle, ka, runStart, lastSend, quietLen, callListed, pathOut, pathIn>>
+  /\ UNCHANGED <<dialVars, active, evlog, handlers, pendEv, conns, spawnQ, nextTick, phase, subs,
+                 subPos, addrNode, lastAdd, replies, faultT, idle, ka, runStart, lastSend,
+                 quietLen, callListed, pathOut, pathIn, closingH>>
 
 -----------------------------------------------------------------------------
 (* Inbound: handle_incoming / handle_incoming_task *)
@@ -266,7 +276,8 @@ TrInAccepted ==
   /\ pendingConn' = [pendingConn EXCEPT ![N] = @ + 1]
   /\ UNCHANGED <<connVars, known, cfg, pendingDial, bgResult, backoff, pendEv, conns, tasks,
                  spawnQ, nextTick, phase, subs, subPos, addrNode, lastAdd, replies, closeT,
-                 faultT, idle, ka, runStart, lastSend, quietLen, callListed, pathOut, pathIn>>
+                 faultT, idle, ka, runStart, lastSend, quietLen, callListed, pathOut, pathIn,
+                 closingH>>
 
 TrInStart ==
   /\ IsEvent("in.start")
@@ -275,7 +286,8 @@ TrInStart ==
                    [node |-> N, kind |-> "in", bg |-> FALSE, target |-> -1, addr |-> "-",
                     gid |-> 0, fin |-> "no"])
   /\ UNCHANGED <<vars, pendEv, conns, spawnQ, nextTick, phase, subs, subPos, addrNode, lastAdd,
-                 replies, closeT, faultT, idle, ka, runStart, lastSend, quietLen, callListed, pathOut, pathIn>>
+                 replies, closeT, faultT, idle, ka, runStart, lastSend, quietLen, callListed,
+                 pathOut, pathIn, closingH>>
 
 (* TLS finished on the listener.  In TLS 1.3 the client finishes first, so  *)
 (* the connection is already known from its dialer; the identity the        *)
@@ -290,7 +302,8 @@ TrInTls ==
   /\ conns' = [conns EXCEPT ![Cur.gid].ltls = TRUE]
   /\ tasks' = [tasks EXCEPT ![Cur.task].gid = Cur.gid]
   /\ UNCHANGED <<vars, pendEv, spawnQ, nextTick, phase, subs, subPos, addrNode, lastAdd, replies,
-                 closeT, faultT, idle, ka, runStart, lastSend, quietLen, callListed, pathOut, pathIn>>
+                 closeT, faultT, idle, ka, runStart, lastSend, quietLen, callListed, pathOut,
+                 pathIn, closingH>>
 
 TrAdmission ==
   /\ IsEvent("in.admission")
@@ -306,15 +319,17 @@ TrAdmission ==
      THEN /\ closedL' = [closedL EXCEPT ![N] = @ \cup {Cur.gid}]
           /\ Closes(N, {Cur.gid})
      ELSE UNCHANGED <<closedL, closeT>>
-  /\ UNCHANGED <<active, evlog, handlers, dialVars, pendEv, tasks, spawnQ, nextTick, phase, subs,
-                 subPos, addrNode, lastAdd, replies, faultT, idle, ka, runStart, lastSend, quietLen, callListed, pathOut, pathIn>>
+  /\ UNCHANGED <<dialVars, active, evlog, handlers, pendEv, tasks, spawnQ, nextTick, phase, subs,
+                 subPos, addrNode, lastAdd, replies, faultT, idle, ka, runStart, lastSend,
+                 quietLen, callListed, pathOut, pathIn, closingH>>
 
 TrAckSent ==
   /\ IsEvent("hs.ack_sent")
   /\ conns[Cur.gid].l = N /\ conns[Cur.gid].admit = "admit" /\ ~conns[Cur.gid].ackSent
   /\ conns' = [conns EXCEPT ![Cur.gid].ackSent = TRUE]
   /\ UNCHANGED <<vars, pendEv, tasks, spawnQ, nextTick, phase, subs, subPos, addrNode, lastAdd,
-                 replies, closeT, faultT, idle, ka, runStart, lastSend, quietLen, callListed, pathOut, pathIn>>
+                 replies, closeT, faultT, idle, ka, runStart, lastSend, quietLen, callListed,
+                 pathOut, pathIn, closingH>>
 
 TrAckRead ==
   /\ IsEvent("hs.ack_read")
@@ -323,14 +338,16 @@ TrAckRead ==
      ELSE TRUE                                  \* an adversary listener logs nothing
   /\ conns' = [conns EXCEPT ![Cur.gid].ackRead = TRUE]
   /\ UNCHANGED <<vars, pendEv, tasks, spawnQ, nextTick, phase, subs, subPos, addrNode, lastAdd,
-                 replies, closeT, faultT, idle, ka, runStart, lastSend, quietLen, callListed, pathOut, pathIn>>
+                 replies, closeT, faultT, idle, ka, runStart, lastSend, quietLen, callListed,
+                 pathOut, pathIn, closingH>>
 
 TrAckConfirmed ==
   /\ IsEvent("hs.ack_confirmed")
   /\ conns[Cur.gid].l = N /\ conns[Cur.gid].ackSent /\ ~conns[Cur.gid].ackConf
   /\ conns' = [conns EXCEPT ![Cur.gid].ackConf = TRUE]
   /\ UNCHANGED <<vars, pendEv, tasks, spawnQ, nextTick, phase, subs, subPos, addrNode, lastAdd,
-                 replies, closeT, faultT, idle, ka, runStart, lastSend, quietLen, callListed, pathOut, pathIn>>
+                 replies, closeT, faultT, idle, ka, runStart, lastSend, quietLen, callListed,
+                 pathOut, pathIn, closingH>>
 
 TrInDone ==
   /\ IsEvent("in.done")
@@ -347,8 +364,9 @@ TrInDone ==
              THEN /\ closedL' = [closedL EXCEPT ![N] = @ \cup {tk.gid}]
                   /\ Closes(N, {tk.gid})
              ELSE UNCHANGED <<closedL, closeT>>
-  /\ UNCHANGED <<active, evlog, handlers, dialVars, pendEv, conns, spawnQ, nextTick, phase, subs,
-                 subPos, addrNode, lastAdd, replies, faultT, idle, ka, runStart, lastSend, quietLen, callListed, pathOut, pathIn>>
+  /\ UNCHANGED <<dialVars, active, evlog, handlers, pendEv, conns, spawnQ, nextTick, phase, subs,
+                 subPos, addrNode, lastAdd, replies, faultT, idle, ka, runStart, lastSend,
+                 quietLen, callListed, pathOut, pathIn, closingH>>
 
 -----------------------------------------------------------------------------
 (* The active set: every operation logs while holding the write lock *)
@@ -359,14 +377,16 @@ TrApEvent ==
   /\ IsEvent("ap.event")
   /\ pendEv' = [pendEv EXCEPT ![N] = Append(@, EvOf(Cur))]
   /\ UNCHANGED <<vars, conns, tasks, spawnQ, nextTick, phase, subs, subPos, addrNode, lastAdd,
-                 replies, closeT, faultT, idle, ka, runStart, lastSend, quietLen, callListed, pathOut, pathIn>>
+                 replies, closeT, faultT, idle, ka, runStart, lastSend, quietLen, callListed,
+                 pathOut, pathIn, closingH>>
 
 (* add_peer: only for a connecting task of this node that finished Ok       *)
 TrApAdd ==
   /\ IsEvent("ap.add")
   /\ Cur.own = N
   /\ Cur.gid \in DOMAIN conns
-  /\ Cur.origin = (IF conns[Cur.gid].d = N THEN "out" ELSE "in")
+  /\ Cur.origin \in (IF conns[Cur.gid].d = N THEN {"out"} ELSE {}) \cup
+                    (IF conns[Cur.gid].l = N THEN {"in"} ELSE {})     \* both for a self-dial
   /\ Cur.peer = Other(N, Cur.gid)
   /\ \E id \in DOMAIN tasks : tasks[id].node = N /\ tasks[id].gid = Cur.gid /\ tasks[id].fin = "ok"
   /\ LET r == AddRes(N, Cur.peer, Cur.gid, Cur.origin) IN
@@ -377,8 +397,9 @@ TrApAdd ==
   /\ ApAdd(N, Cur.peer, Cur.gid, Cur.origin)
   /\ pendEv' = [pendEv EXCEPT ![N] = <<>>]
   /\ lastAdd' = [lastAdd EXCEPT ![N] = [gid |-> Cur.gid, outcome |-> Cur.outcome]]
-  /\ UNCHANGED <<dialVars, conns, tasks, spawnQ, nextTick, phase, subs, subPos, addrNode, replies,
-                 faultT, idle, ka, runStart, lastSend, quietLen, callListed, pathOut, pathIn>>
+  /\ UNCHANGED <<dialVars, conns, tasks, spawnQ, nextTick, phase, subs, subPos, addrNode,
+                 replies, faultT, idle, ka, runStart, lastSend, quietLen, callListed, pathOut,
+                 pathIn, closingH>>
 
 (* handle_connecting_result, after add_peer and before the reply            *)
 TrMgrResult ==
@@ -401,7 +422,8 @@ TrMgrResult ==
   /\ pendingConn' = [pendingConn EXCEPT ![N] = @ - 1]
   /\ lastAdd' = [lastAdd EXCEPT ![N] = [gid |-> 0, outcome |-> "-"]]
   /\ UNCHANGED <<connVars, known, cfg, pendingDial, backoff, pendEv, conns, spawnQ, nextTick,
-                 phase, subs, subPos, addrNode, closeT, faultT, idle, ka, runStart, lastSend, quietLen, callListed, pathOut, pathIn>>
+                 phase, subs, subPos, addrNode, closeT, faultT, idle, ka, runStart, lastSend,
+                 quietLen, callListed, pathOut, pathIn, closingH>>
 
 TrApRemove ==
   /\ IsEvent("ap.remove")
@@ -413,8 +435,9 @@ TrApRemove ==
   /\ ApRemove(N, Cur.peer, Cur.reason)
   /\ Cur.len = Cardinality(DOMAIN active'[N])
   /\ pendEv' = [pendEv EXCEPT ![N] = <<>>]
-  /\ UNCHANGED <<dialVars, conns, tasks, spawnQ, nextTick, phase, subs, subPos, addrNode, lastAdd,
-                 replies, faultT, idle, ka, runStart, lastSend, quietLen, callListed, pathOut, pathIn>>
+  /\ UNCHANGED <<dialVars, conns, tasks, spawnQ, nextTick, phase, subs, subPos, addrNode,
+                 lastAdd, replies, faultT, idle, ka, runStart, lastSend, quietLen, callListed,
+                 pathOut, pathIn, closingH>>
 
 (* The handler of connection hgid ends.  Why it may end (the environment    *)
 (* must have been able to cause it) is checked on the preceding h.closing.  *)
@@ -430,14 +453,17 @@ TrApRemoveId ==
   /\ ApRemoveId(N, Cur.peer, Cur.hgid, Cur.reason)
   /\ Cur.len = Cardinality(DOMAIN active'[N])
   /\ pendEv' = [pendEv EXCEPT ![N] = <<>>]
-  /\ UNCHANGED <<dialVars, conns, tasks, spawnQ, nextTick, phase, subs, subPos, addrNode, lastAdd,
-                 replies, faultT, idle, ka, runStart, lastSend, quietLen, callListed, pathOut, pathIn>>
+  /\ closingH' = With(closingH, N, 0)
+  /\ UNCHANGED <<dialVars, conns, tasks, spawnQ, nextTick, phase, subs, subPos, addrNode,
+                 lastAdd, replies, faultT, idle, ka, runStart, lastSend, quietLen, callListed,
+                 pathOut, pathIn>>
 
 TrHStart ==
   /\ IsEvent("h.start")
   /\ Cur.gid \in handlers[N]
   /\ UNCHANGED <<vars, pendEv, conns, tasks, spawnQ, nextTick, phase, subs, subPos, addrNode,
-                 lastAdd, replies, closeT, faultT, idle, ka, runStart, lastSend, quietLen, callListed, pathOut, pathIn>>
+                 lastAdd, replies, closeT, faultT, idle, ka, runStart, lastSend, quietLen,
+                 callListed, pathOut, pathIn, closingH>>
 
 (* the handler saw its connection end: who can have caused that?            *)
 PeerGone(n, g) ==
@@ -469,8 +495,10 @@ TrHClosing ==
        [] Cur.reason = "TimedOut" ->
             Faulty(N) \/ PeerGone(N, Cur.gid) \/ QuietExpiry(N, Cur.gid)
        [] OTHER -> Other(N, Cur.gid) \notin DOMAIN phase    \* TransportError etc.: adversary only
+  /\ closingH' = With(closingH, N, Cur.gid)
   /\ UNCHANGED <<vars, pendEv, conns, tasks, spawnQ, nextTick, phase, subs, subPos, addrNode,
-                 lastAdd, replies, closeT, faultT, idle, ka, runStart, lastSend, quietLen, callListed, pathOut, pathIn>>
+                 lastAdd, replies, closeT, faultT, idle, ka, runStart, lastSend, quietLen,
+                 callListed, pathOut, pathIn>>
 
 -----------------------------------------------------------------------------
 (* Subscriptions and listings as the application sees them *)
@@ -481,14 +509,16 @@ TrApSubscribe ==
   /\ Len(Cur.snapshot) = Cardinality(DOMAIN active[N])      \* no duplicates
   /\ subPos' = [subPos EXCEPT ![N] = Len(evlog[N])]
   /\ UNCHANGED <<vars, pendEv, conns, tasks, spawnQ, nextTick, phase, subs, addrNode, lastAdd,
-                 replies, closeT, faultT, idle, ka, runStart, lastSend, quietLen, callListed, pathOut, pathIn>>
+                 replies, closeT, faultT, idle, ka, runStart, lastSend, quietLen, callListed,
+                 pathOut, pathIn, closingH>>
 
 TrObsSubscribe ==
   /\ IsEvent("obs.subscribe")
   /\ SeqToSet(Cur.snapshot) = DOMAIN active[N]
   /\ subs' = With(subs, Cur.sub, [node |-> N, pos |-> subPos[N]])
   /\ UNCHANGED <<vars, pendEv, conns, tasks, spawnQ, nextTick, phase, subPos, addrNode, lastAdd,
-                 replies, closeT, faultT, idle, ka, runStart, lastSend, quietLen, callListed, pathOut, pathIn>>
+                 replies, closeT, faultT, idle, ka, runStart, lastSend, quietLen, callListed,
+                 pathOut, pathIn, closingH>>
 
 (* a subscriber receives exactly the log, in order, from its position       *)
 TrObsEvent ==
@@ -498,7 +528,8 @@ TrObsEvent ==
   /\ evlog[N][subs[Cur.sub].pos + 1] = EvOf(Cur)
   /\ subs' = [subs EXCEPT ![Cur.sub].pos = @ + 1]
   /\ UNCHANGED <<vars, pendEv, conns, tasks, spawnQ, nextTick, phase, subPos, addrNode, lastAdd,
-                 replies, closeT, faultT, idle, ka, runStart, lastSend, quietLen, callListed, pathOut, pathIn>>
+                 replies, closeT, faultT, idle, ka, runStart, lastSend, quietLen, callListed,
+                 pathOut, pathIn, closingH>>
 
 (* end of stream: only after shutdown, and nothing was withheld             *)
 TrSubClosed ==
@@ -508,14 +539,16 @@ TrSubClosed ==
   /\ subs[Cur.sub].pos = Len(evlog[N])
   /\ subs' = Without(subs, Cur.sub)
   /\ UNCHANGED <<vars, pendEv, conns, tasks, spawnQ, nextTick, phase, subPos, addrNode, lastAdd,
-                 replies, closeT, faultT, idle, ka, runStart, lastSend, quietLen, callListed, pathOut, pathIn>>
+                 replies, closeT, faultT, idle, ka, runStart, lastSend, quietLen, callListed,
+                 pathOut, pathIn, closingH>>
 
 TrObsPeers ==
   /\ IsEvent("obs.peers")
   /\ SeqToSet(Cur.peers) = (IF phase[N] = "done" THEN {} ELSE DOMAIN active[N])
   /\ Len(Cur.peers) = Cardinality(SeqToSet(Cur.peers))
   /\ UNCHANGED <<vars, pendEv, conns, tasks, spawnQ, nextTick, phase, subs, subPos, addrNode,
-                 lastAdd, replies, closeT, faultT, idle, ka, runStart, lastSend, quietLen, callListed, pathOut, pathIn>>
+                 lastAdd, replies, closeT, faultT, idle, ka, runStart, lastSend, quietLen,
+                 callListed, pathOut, pathIn, closingH>>
 
 (* the result an application got from connect(): one of the replies sent    *)
 TrConnectResult ==
@@ -526,21 +559,24 @@ TrConnectResult ==
         /\ replies' = [replies EXCEPT ![N] = RemoveAt(@, i)]
   /\ Cur.ok /\ Has(Cur, "expected") => Cur.peer = Cur.expected
   /\ UNCHANGED <<vars, pendEv, conns, tasks, spawnQ, nextTick, phase, subs, subPos, addrNode,
-                 lastAdd, closeT, faultT, idle, ka, runStart, lastSend, quietLen, callListed, pathOut, pathIn>>
+                 lastAdd, closeT, faultT, idle, ka, runStart, lastSend, quietLen, callListed,
+                 pathOut, pathIn, closingH>>
 
 (* connect() on a network that is shut down fails without reaching the manager *)
 TrConnectRefused ==
   /\ IsEvent("obs.connect_refused")
   /\ phase[N] \in {"closing", "done"}
   /\ UNCHANGED <<vars, pendEv, conns, tasks, spawnQ, nextTick, phase, subs, subPos, addrNode,
-                 lastAdd, replies, closeT, faultT, idle, ka, runStart, lastSend, quietLen, callListed, pathOut, pathIn>>
+                 lastAdd, replies, closeT, faultT, idle, ka, runStart, lastSend, quietLen,
+                 callListed, pathOut, pathIn, closingH>>
 
 (* a connect() whose dial task was aborted by shutdown: the caller gets an error *)
 TrConnectAborted ==
   /\ IsEvent("obs.connect_aborted")
   /\ phase[N] \in {"closing", "done"}
   /\ UNCHANGED <<vars, pendEv, conns, tasks, spawnQ, nextTick, phase, subs, subPos, addrNode,
-                 lastAdd, replies, closeT, faultT, idle, ka, runStart, lastSend, quietLen, callListed, pathOut, pathIn>>
+                 lastAdd, replies, closeT, faultT, idle, ka, runStart, lastSend, quietLen,
+                 callListed, pathOut, pathIn, closingH>>
 
 -----------------------------------------------------------------------------
 (* Shutdown *)
@@ -552,7 +588,8 @@ TrShutBegin ==
   /\ phase[N] = "running"
   /\ phase' = [phase EXCEPT ![N] = "closing"]
   /\ UNCHANGED <<vars, pendEv, conns, tasks, spawnQ, nextTick, subs, subPos, addrNode, lastAdd,
-                 replies, closeT, faultT, idle, ka, runStart, lastSend, quietLen, callListed, pathOut, pathIn>>
+                 replies, closeT, faultT, idle, ka, runStart, lastSend, quietLen, callListed,
+                 pathOut, pathIn, closingH>>
 
 (* endpoint.close(): every connection of this endpoint is closed            *)
 TrShutClosed ==
@@ -561,8 +598,9 @@ TrShutClosed ==
   /\ Cur.handlers >= Cardinality(handlers[N])   \* the JoinSet may still hold finished, unjoined tasks
   /\ closedL' = [closedL EXCEPT ![N] = @ \cup ConnsOf(N)]
   /\ Closes(N, ConnsOf(N))
-  /\ UNCHANGED <<active, evlog, handlers, dialVars, pendEv, conns, tasks, spawnQ, nextTick, phase,
-                 subs, subPos, addrNode, lastAdd, replies, faultT, idle, ka, runStart, lastSend, quietLen, callListed, pathOut, pathIn>>
+  /\ UNCHANGED <<dialVars, active, evlog, handlers, pendEv, conns, tasks, spawnQ, nextTick,
+                 phase, subs, subPos, addrNode, lastAdd, replies, faultT, idle, ka, runStart,
+                 lastSend, quietLen, callListed, pathOut, pathIn, closingH>>
 
 (* pending connecting tasks are aborted: their results are never consumed   *)
 TrShutAborted ==
@@ -571,7 +609,8 @@ TrShutAborted ==
   /\ pendingConn' = [pendingConn EXCEPT ![N] = 0]
   /\ UNCHANGED <<connVars, known, cfg, pendingDial, bgResult, backoff, pendEv, conns, tasks,
                  spawnQ, nextTick, phase, subs, subPos, addrNode, lastAdd, replies, closeT,
-                 faultT, idle, ka, runStart, lastSend, quietLen, callListed, pathOut, pathIn>>
+                 faultT, idle, ka, runStart, lastSend, quietLen, callListed, pathOut, pathIn,
+                 closingH>>
 
 (* all handlers joined: the active set must be empty (the code asserts it)  *)
 TrShutJoined ==
@@ -581,14 +620,16 @@ TrShutJoined ==
   /\ Cur.active_len = 0
   /\ DOMAIN active[N] = {}
   /\ UNCHANGED <<vars, pendEv, conns, tasks, spawnQ, nextTick, phase, subs, subPos, addrNode,
-                 lastAdd, replies, closeT, faultT, idle, ka, runStart, lastSend, quietLen, callListed, pathOut, pathIn>>
+                 lastAdd, replies, closeT, faultT, idle, ka, runStart, lastSend, quietLen,
+                 callListed, pathOut, pathIn, closingH>>
 
 TrShutDone ==
   /\ IsEvent("shut.done")
   /\ phase[N] = "closing"
   /\ phase' = [phase EXCEPT ![N] = "done"]
   /\ UNCHANGED <<vars, pendEv, conns, tasks, spawnQ, nextTick, subs, subPos, addrNode, lastAdd,
-                 replies, closeT, faultT, idle, ka, runStart, lastSend, quietLen, callListed, pathOut, pathIn>>
+                 replies, closeT, faultT, idle, ka, runStart, lastSend, quietLen, callListed,
+                 pathOut, pathIn, closingH>>
 
 -----------------------------------------------------------------------------
 (* Quiescence: connectivity has been fault-free for longer than the idle    *)
@@ -608,7 +649,8 @@ TrQuiesce ==
         \A p \in DOMAIN active[n] : p \in DOMAIN phase => phase[p] = "running"
   /\ quietLen' = [n \in DOMAIN evlog |-> Len(evlog[n])]
   /\ UNCHANGED <<vars, pendEv, conns, tasks, spawnQ, nextTick, phase, subs, subPos, addrNode,
-                 lastAdd, replies, closeT, faultT, idle, ka, runStart, lastSend, callListed, pathOut, pathIn>>
+                 lastAdd, replies, closeT, faultT, idle, ka, runStart, lastSend, callListed,
+                 pathOut, pathIn, closingH>>
 
 (* C05 Converge: after a mutual dial both sides hold the same connection,   *)
 (* the one dialed by the greater identity                                   *)
@@ -619,14 +661,16 @@ TrConverged ==
      /\ active[a][b].gid = active[b][a].gid
      /\ conns[active[a][b].gid].d = hi
   /\ UNCHANGED <<vars, pendEv, conns, tasks, spawnQ, nextTick, phase, subs, subPos, addrNode,
-                 lastAdd, replies, closeT, faultT, idle, ka, runStart, lastSend, quietLen, callListed, pathOut, pathIn>>
+                 lastAdd, replies, closeT, faultT, idle, ka, runStart, lastSend, quietLen,
+                 callListed, pathOut, pathIn, closingH>>
 
 (* C05 Settled: no further connect / disconnect events since quiescence     *)
 TrSettled ==
   /\ IsEvent("obs.settled")
   /\ \A n \in DOMAIN quietLen : Len(evlog[n]) = quietLen[n]
   /\ UNCHANGED <<vars, pendEv, conns, tasks, spawnQ, nextTick, phase, subs, subPos, addrNode,
-                 lastAdd, replies, closeT, faultT, idle, ka, runStart, lastSend, quietLen, callListed, pathOut, pathIn>>
+                 lastAdd, replies, closeT, faultT, idle, ka, runStart, lastSend, quietLen,
+                 callListed, pathOut, pathIn, closingH>>
 
 -----------------------------------------------------------------------------
 (* Events of other layers (RPC path, timeouts, raw observations) do not    *)
@@ -639,7 +683,8 @@ TrRpcCall ==
   /\ callListed' = With(callListed, Cur.nonce,
                          [listed |-> phase[N] # "done" /\ Cur.to \in DOMAIN active[N], to |-> Cur.to])
   /\ UNCHANGED <<vars, pendEv, conns, tasks, spawnQ, nextTick, phase, subs, subPos, addrNode,
-                 lastAdd, replies, closeT, faultT, idle, ka, runStart, lastSend, quietLen, pathOut, pathIn>>
+                 lastAdd, replies, closeT, faultT, idle, ka, runStart, lastSend, quietLen,
+                 pathOut, pathIn, closingH>>
 
 TrRpcResult ==
   /\ IsEvent("obs.rpc_result")
@@ -649,14 +694,16 @@ TrRpcResult ==
   /\ Get(Cur, "must_succeed", FALSE) => Cur.ok
   /\ callListed' = Without(callListed, Cur.nonce)
   /\ UNCHANGED <<vars, pendEv, conns, tasks, spawnQ, nextTick, phase, subs, subPos, addrNode,
-                 lastAdd, replies, closeT, faultT, idle, ka, runStart, lastSend, quietLen, pathOut, pathIn>>
+                 lastAdd, replies, closeT, faultT, idle, ka, runStart, lastSend, quietLen,
+                 pathOut, pathIn, closingH>>
 
 (* endpoint.accept() yielded None: the incoming connection attempt could not *)
 (* be accepted (or the endpoint is closed); the manager just loops           *)
 TrAcceptNone ==
   /\ IsEvent("mgr.accept_none")
   /\ UNCHANGED <<vars, pendEv, conns, tasks, spawnQ, nextTick, phase, subs, subPos, addrNode,
-                 lastAdd, replies, closeT, faultT, idle, ka, runStart, lastSend, quietLen, callListed, pathOut, pathIn>>
+                 lastAdd, replies, closeT, faultT, idle, ka, runStart, lastSend, quietLen,
+                 callListed, pathOut, pathIn, closingH>>
 
 (* datagram activity between two addresses, reported by the fabric (rate limited) *)
 TrPath ==
@@ -667,16 +714,29 @@ TrPath ==
           /\ pathIn' = IF Cur.lost THEN pathIn ELSE With(pathIn, <<a, b>>, Cur.t)
      ELSE UNCHANGED <<pathOut, pathIn>>
   /\ UNCHANGED <<vars, pendEv, conns, tasks, spawnQ, nextTick, phase, subs, subPos, addrNode,
-                 lastAdd, replies, closeT, faultT, idle, ka, runStart, lastSend, quietLen, callListed>>
+                 lastAdd, replies, closeT, faultT, idle, ka, runStart, lastSend, quietLen,
+                 callListed, closingH>>
+
+(* The handler of a connection that ended removes the peer first and only   *)
+(* then shuts its in-flight request tasks down (that order is what makes the *)
+(* loss visible at once, whatever the request handlers are doing): no        *)
+(* request task of that connection ends between "saw it end" and the removal *)
+TrSrvEnd ==
+  /\ l <= Len(Rec) /\ Cur.ev \in {"srv.drop", "srv.err"} /\ l' = l + 1 /\ now' = Cur.t
+  /\ IF N \in DOMAIN closingH THEN closingH[N] # Cur.gid ELSE TRUE
+  /\ UNCHANGED <<vars, pendEv, conns, tasks, spawnQ, nextTick, phase, subs, subPos, addrNode,
+                 lastAdd, replies, closeT, faultT, idle, ka, runStart, lastSend, quietLen,
+                 callListed, pathOut, pathIn, closingH>>
 
 TrRpcOpen ==
   /\ IsEvent("rpc.open")
   /\ lastSend' = With(lastSend, <<N, Cur.gid>>, Cur.t)
   /\ UNCHANGED <<vars, pendEv, conns, tasks, spawnQ, nextTick, phase, subs, subPos, addrNode,
-                 lastAdd, replies, closeT, faultT, idle, ka, runStart, quietLen, callListed, pathOut, pathIn>>
+                 lastAdd, replies, closeT, faultT, idle, ka, runStart, quietLen, callListed,
+                 pathOut, pathIn, closingH>>
 
 Ignored == {"conn.new", "tmo.set", "tmo.fire", "rpc.finish", "rpc.recv", "rpc.drop",
-            "srv.accept", "srv.decoded", "srv.ret", "srv.end", "srv.drop", "srv.err",
+            "srv.accept", "srv.decoded", "srv.ret", "srv.end",
             "app.start", "app.end", "app.drop",
             "obs.connect_call", "obs.disconnect", "h.exit", "shut.idle", "shut.rebound",
             "obs.note", "obs.sub_lagged"}
@@ -684,7 +744,8 @@ Ignored == {"conn.new", "tmo.set", "tmo.fire", "rpc.finish", "rpc.recv", "rpc.dr
 TrIgnored ==
   /\ l <= Len(Rec) /\ Cur.ev \in Ignored /\ l' = l + 1 /\ now' = Cur.t
   /\ UNCHANGED <<vars, pendEv, conns, tasks, spawnQ, nextTick, phase, subs, subPos, addrNode,
-                 lastAdd, replies, closeT, faultT, idle, ka, runStart, lastSend, quietLen, callListed, pathOut, pathIn>>
+                 lastAdd, replies, closeT, faultT, idle, ka, runStart, lastSend, quietLen,
+                 callListed, pathOut, pathIn, closingH>>
 
 TraceNext ==
   \/ TrReset \/ TrNodeStart \/ TrAddr \/ TrMgrStart \/ TrKnownInsert \/ TrKnownRemove \/ TrFault
@@ -696,7 +757,7 @@ TraceNext ==
   \/ TrApSubscribe \/ TrObsSubscribe \/ TrObsEvent \/ TrSubClosed \/ TrObsPeers
   \/ TrConnectResult \/ TrConnectRefused \/ TrConnectAborted
   \/ TrShutBegin \/ TrShutClosed \/ TrShutAborted \/ TrShutJoined \/ TrShutDone
-  \/ TrQuiesce \/ TrConverged \/ TrSettled \/ TrAcceptNone \/ TrPath \/ TrRpcCall \/ TrRpcResult \/ TrRpcOpen \/ TrIgnored
+  \/ TrQuiesce \/ TrConverged \/ TrSettled \/ TrAcceptNone \/ TrSrvEnd \/ TrPath \/ TrRpcCall \/ TrRpcResult \/ TrRpcOpen \/ TrIgnored
 
 TraceSpec == TraceInit /\ [][TraceNext]_allvars
 
